@@ -550,7 +550,7 @@ func TestShardC17(t *testing.T) {
 	progress := os.Getenv("VERIF_E1_PROGRESS")
 	work, _ := os.MkdirTemp(os.Getenv("VERIF_E1_WORK"), "c17-")
 	defer os.RemoveAll(work)
-	nGroup, nPref := h.Pick(160, 3000), h.Pick(240, 5000)
+	nGroup, nPref := h.Pick(160, 1500), h.Pick(240, 1500)
 	dfsLimit := h.Pick(24, 120)
 	total := nGroup + nPref
 	for c := from; c < total; c++ {
@@ -631,7 +631,7 @@ func TestShardC17(t *testing.T) {
 			}
 			part.Sample(map[string]any{"mode": "group", "begin": p.Begin, "end": p.End, "error_only": p.ErrorOnly, "taskfile": h.Truncate(yml, 1500)}, 2)
 		} else {
-			reps := h.Pick(6, 12)
+			reps := h.Pick(6, 8)
 			for rep := 0; rep < reps; rep++ {
 				runtime.GOMAXPROCS([]int{16, 4, 2, 16, 8, 16}[rep%6])
 				r := c17Free(p, dir, h.Rng(17, int64(c), int64(rep)))
